@@ -56,6 +56,10 @@ def run(P, R, tier, cfg):
     _operands(P, R)
     _assignment(P, R)
     _arithmetic(P, R)
+    # e (added): whether a right-hand side is a field reference or a string literal is decided by the parser's identifier test;
+    # shared with C04.h (lexical agreement with the condition patterns)
+    from rules.C04 import _identifier_class
+    _identifier_class(P, R)
 
 
 def _mut_borrows_of_local(fn, loc):
